@@ -14,6 +14,7 @@ from ..harness import Query
 
 ID = 'C17'
 DEFAULT_FEATURES = True   # fast-check data is part of the graph state
+BUILD_PROBES = True   # evidence: the states behind the recorded findings are produced by the real builder
 ASSUMPTIONS = [
     'pre-state: graph kind All (the statement: "built with all dependency kinds"), representation invariant of DESIGN.md section 3',
     'equality with a graph built code-only from the same sources is NOT decided (needs the async builder); the post-state is compared with the code-reachable part of the pre-state',
